@@ -37,7 +37,7 @@ def gen_thr(r, C, D, s, low=False):
 def run(chk):
     chk.prove()
     r = gen.rng(chk.seed, "C17")
-    n_hist = 30 if chk.tier == "quick" else 250
+    n_hist = 30 if chk.tier == "quick" else 1200
     max_ops = 12 if chk.tier == "quick" else 40
     terms = []
     eps = float(np.finfo(float).eps)
@@ -133,7 +133,7 @@ def run(chk):
         if i < 2:
             chk.sample({"C": C, "D": D, "ops": names})
     # MAP adaptation with weight/variance updating on NumPy input: no stale log-weight or normaliser afterwards
-    for j in range(6 if chk.tier == "quick" else 40):
+    for j in range(6 if chk.tier == "quick" else 200):
         C, D = r.choice([2, 3]), r.choice([1, 2])
         w, mu, var, s = gen.gen_gmm(r, C, D, "unit")
         prior = make_gmm(w, mu, var)
@@ -159,7 +159,7 @@ def run(chk):
         f.variance_thresholds = np.array(thr)
         f.variances = np.array(mach.variances)
         return f
-    for j in range(12 if chk.tier == "quick" else 80):
+    for j in range(12 if chk.tier == "quick" else 400):
         C, D = r.choice([1, 2, 3]), r.choice([1, 2, 3])
         w, mu, var, s = gen.gen_gmm(r, C, D, "unit")
         m = make_gmm(w, mu, var, thr=1e-3 * float(s.min()) ** 2)
